@@ -43,6 +43,7 @@ func (c03Stub) DeletePrivateKey(context.Context, string) error                  
 type c03Env struct {
 	root     string
 	validate spi.Storage   // the real wrapper around a stub: only validateKID runs
+	listSeq  int
 	backends []spi.Storage // the real wrapper around real fs backends (different spellings of root/keys)
 	key      crypto.PrivateKey
 }
@@ -120,6 +121,37 @@ func c03Exec(env *c03Env, op map[string]interface{}) (line string) {
 		return "kids " + sb.String()
 	case "entrypath":
 		return "entrypath " + hex.EncodeToString([]byte(fileSystemBackend{fspath: unhex("dir")}.getEntryPath(unhex("kid"), privateKeyEntry)))
+	case "listnames":
+		// a fresh key directory holding the given regular files (relative paths, sub-directories allowed): what the REAL
+		// ListPrivateKeys makes of it
+		env.listSeq++
+		dir := filepath.Join(env.root, fmt.Sprintf("list%d", env.listSeq))
+		defer os.RemoveAll(dir)
+		be, err := NewFileSystemBackend(dir)
+		if err != nil {
+			return "listnames backend-error"
+		}
+		fl, _ := op["files"].([]interface{})
+		for _, fv := range fl {
+			fs_, _ := fv.(string)
+			b, _ := hex.DecodeString(fs_)
+			pth := filepath.Join(dir, string(b))
+			if err := os.MkdirAll(filepath.Dir(pth), 0o700); err != nil {
+				return "listnames cannot-create:" + err.Error()
+			}
+			if err := os.WriteFile(pth, []byte("x"), 0o600); err != nil {
+				return "listnames cannot-create:" + err.Error()
+			}
+		}
+		var names []string
+		for _, kv := range be.ListPrivateKeys(context.Background()) {
+			if kv.Version != "1" {
+				names = append(names, "VERSION="+kv.Version)
+			}
+			names = append(names, hex.EncodeToString([]byte(kv.KeyName)))
+		}
+		sort.Strings(names)
+		return "listnames [" + strings.Join(names, ",") + "]"
 	case "save":
 		kid := unhex("kid")
 		bi := 0
@@ -332,7 +364,7 @@ func TestVerifC03(t *testing.T) {
 			var op map[string]interface{}
 			if json.Unmarshal(sc.Bytes(), &op) == nil {
 				switch op["op"] {
-				case "kidmap", "kids", "entrypath", "save":
+				case "kidmap", "kids", "entrypath", "save", "listnames":
 					emit(op)
 				}
 			}
@@ -426,5 +458,54 @@ func TestVerifC03(t *testing.T) {
 			continue
 		}
 		try(s, r.Intn(3))
+	}
+	// ListPrivateKeys: trees of files — proper key files of accepted names, near misses of the suffix, the suffix alone,
+	// no separator, other separators, sub-directories, other extensions
+	nLists := 300
+	if thorough {
+		nLists = 4000
+	}
+	sfx := string(privateKeyEntry)
+	for i := 0; i < nLists; i++ {
+		seen := map[string]bool{}
+		var files []interface{}
+		for j, n := 0, 1+r.Intn(6); j < n; j++ {
+			name := c03Name(r)
+			if !c03Accept(env, name) || len(name) > 100 || strings.ContainsAny(name, "/\x00") {
+				name = []string{"k", "did:a#1", "3f1c2a9e-5b7d-4c1a-9e2f-0a1b2c3d4e5f", "a", "ab", "_"}[r.Intn(6)]
+			}
+			var f string
+			switch r.Intn(12) {
+			case 0:
+				f = sfx
+			case 1:
+				f = "_" + sfx
+			case 2:
+				f = name + sfx // no separator
+			case 3:
+				f = name + "-" + sfx
+			case 4:
+				f = name + "_" + sfx[:len(sfx)-1]
+			case 5:
+				f = name + "_" + sfx + ".bak"
+			case 6:
+				f = "sub/" + name + "_" + sfx
+			case 7:
+				f = name + "_public.pem"
+			case 8:
+				f = name + "__" + sfx
+			default:
+				f = name + "_" + sfx
+			}
+			if f == "" || seen[strings.ToLower(f)] || seen[strings.ToLower(filepath.Base(f))] {
+				continue
+			}
+			seen[strings.ToLower(f)], seen[strings.ToLower(filepath.Base(f))] = true, true
+			files = append(files, hx(f))
+		}
+		if files == nil {
+			files = []interface{}{}
+		}
+		emit(map[string]interface{}{"op": "listnames", "files": files})
 	}
 }
